@@ -51,6 +51,37 @@ def vocabulary(reference_texts):
     return v
 
 
+EXTERNAL = set()      # names of functions / methods defined outside the crate (std, chrono, serde ..) that the
+                      # analysed tree calls: their meaning is fixed, they cannot be a freshly written helper
+
+
+def note_externals(F):
+    tops = set()
+    for b in F.bodies:
+        p = (b.get("path") or "").lstrip("<&")
+        tops.add(p.split("::", 1)[0].split(" ", 1)[0])
+    tops = {t for t in tops if re.match(r"^[a-z_][a-z0-9_]*$", t or "")}
+    local = re.compile(r"(?:^|[^A-Za-z0-9_:])(?:%s)::" % "|".join(sorted(map(re.escape, tops)))) if tops else None
+    for b in F.bodies:
+        if "body" not in b:
+            continue
+        st = [b["body"]]
+        while st:
+            n = st.pop()
+            if isinstance(n, list):
+                st.extend(n)
+                continue
+            if not isinstance(n, dict):
+                continue
+            if n.get("k") in ("call", "mcall"):
+                f = n.get("inst") or n.get("f") or ""
+                if f and not (local and local.search(f)) and re.match(r"^<?&?(mut )?(std|core|alloc|chrono|serde|serde_json|regex)\b", f):
+                    nm = f.rsplit("::", 1)[-1]
+                    if re.match(r"^[a-z_][a-z0-9_]*$", nm):
+                        EXTERNAL.add(nm)
+            st.extend(v for v in n.values() if isinstance(v, (dict, list)))
+
+
 def opaque(text, vocab):
     if UNRESOLVED.search(text):
         return True
@@ -62,7 +93,7 @@ def opaque(text, vocab):
         name = m.group(1)
         if name.isupper() or name.startswith("IS_"):
             continue
-        if name not in vocab and name.rsplit("::", 1)[-1] not in vocab:
+        if name not in vocab and name.rsplit("::", 1)[-1] not in vocab and name.rsplit("::", 1)[-1] not in EXTERNAL:
             return True
     return False
 
@@ -125,23 +156,41 @@ def definite_difference(f, g, vocab, limit=16):
             opq.discard(x)
             opq.discard(y)
     clear = [a for a in allA if a not in opq]
-    if len(clear) > limit:
-        # keep the atoms that differ plus as many shared ones as fit; the rest become unknown
-        diff = [a for a in clear if (a in Af) != (a in Ag)]
-        shared = [a for a in clear if a in Af and a in Ag]
-        keep = (diff + shared)[:limit]
-        opq |= set(clear) - set(keep)
-        clear = keep
-    for bits in itertools.product([False, True], repeat=len(clear)):
-        val = dict(zip(clear, bits))
-        if not guards.thresholds_consistent(val):
-            continue
-        for a in opq:
-            val[a] = None
+    # search for an assignment of the clear atoms under which both formulas are determined and differ. Depth-first
+    # with three-valued evaluation of the partial assignment: a branch is cut as soon as both formulas are
+    # determined (equal: nothing below can separate them; different: a witness). Atoms that distinguish the two
+    # sides come first.
+    order = [a for a in clear if (a in Af) != (a in Ag)] + [a for a in clear if a in Af and a in Ag]
+    base = {a: None for a in opq}
+    budget = [200000]
+    exhausted = [False]
+
+    def dfs(i, val):
+        budget[0] -= 1
+        if budget[0] < 0:
+            exhausted[0] = True
+            return None
         x, y = ev3(f, val), ev3(g, val)
-        if x is not None and y is not None and x != y:
-            return "different", {k: v for k, v in val.items() if v is not None}
-    if opq:
+        if x is not None and y is not None:
+            return dict(val) if x != y else None
+        if i == len(order):
+            return None
+        a = order[i]
+        for b in (True, False):
+            val[a] = b
+            if guards.thresholds_consistent({k: v for k, v in val.items() if v is not None}):
+                w = dfs(i + 1, val)
+                if w is not None:
+                    return w
+        val[a] = None
+        return None
+    v0 = dict(base)
+    for a in order:
+        v0[a] = None
+    w = dfs(0, v0)
+    if w is not None:
+        return "different", {k: v for k, v in w.items() if v is not None}
+    if opq or exhausted[0]:
         return "undecided", sorted(opq)[:4]
     return "same", None
 
@@ -155,8 +204,14 @@ def differing_tokens(a, b):
     ta, tb = _TOK.findall(a), _TOK.findall(b)
     sm = difflib.SequenceMatcher(a=ta, b=tb, autojunk=False)
     da, db = [], []
+    seen = set()
     for op, i1, i2, j1, j2 in sm.get_opcodes():
         if op != "equal":
+            # one and the same replacement made at every occurrence of a sub-term is one edit, not many
+            ch = (tuple(ta[i1:i2]), tuple(tb[j1:j2]))
+            if ch in seen:
+                continue
+            seen.add(ch)
             da.extend(ta[i1:i2])
             db.extend(tb[j1:j2])
     return da, db
@@ -262,6 +317,8 @@ def _leaf_differs(a, b, vocab):
     da, db = differing_tokens(a, b)
     if not da and not db:
         return False
+    if da.count("STOP") != db.count("STOP"):
+        return True        # a for / while loop is cut short by a `break` on one side only
     chunk = " ".join(da + db)
     # a differing identifier directly followed by "(" in its text is a call; judge the names
     # a large rewrite is a restructuring, not an edit: nothing definite can be read off a long token difference;
@@ -270,15 +327,56 @@ def _leaf_differs(a, b, vocab):
         return False
     if sorted(x for x in da if x not in "()[]{},") == sorted(x for x in db if x not in "()[]{},"):
         return False
+    # a term that was only removed (or only added) sits in a context that is the same on both sides: the loop
+    # variables `~k` / `@k` inside it are the ones of that context, not unknowns of their own
+    _bits = re.compile(r"^[01]{2,}$")       # the truth table of a canonical condition follows its atom list
+    pure = not [t for t in da if not _bits.match(t)] or not [t for t in db if not _bits.match(t)]
     for t in da + db:
+        if pure and (re.match(r"^~\d+$", t) or re.match(r"^@\d+$", t)) and t in a and t in b:
+            continue
         if UNRESOLVED.search(t) or t in ("phi", "OPQ", "match") or re.match(r"^~\d*$", t) or t.startswith("@"):
             return False
         if re.match(r"^[A-Z][A-Z0-9_]{2,}$", t) and t not in BUILTIN and not t.startswith("IS_"):
             return False           # a constant referred to by name: its value is not in the text
         if re.match(r"^[A-Za-z_][\w:]*$", t) and not t.isupper() and t not in vocab and \
-                t.rsplit("::", 1)[-1] not in vocab and re.search(re.escape(t) + r"\(", a + " " + b):
+                t.rsplit("::", 1)[-1] not in vocab and t.rsplit("::", 1)[-1] not in EXTERNAL and re.search(re.escape(t) + r"\(", a + " " + b):
             return False
     return True
+
+
+
+def phi_expansions(t):
+    """texts obtained from t by replacing its (single) `phi(a|b|..)` term by each alternative; None unless t has
+    exactly one phi term"""
+    i = t.find("phi(")
+    if i < 0 or t.find("phi(", i + 1) >= 0 or (i > 0 and (t[i - 1].isalnum() or t[i - 1] == "_")):
+        return None
+    e = _match_close(t, i + 3, "(", ")")
+    if e < 0:
+        return None
+    inner = t[i + 4:e]
+    alts, d, q, cur = [], 0, None, ""
+    for k, ch in enumerate(inner):
+        if q:
+            cur += ch
+            if ch == q and inner[k - 1] != "\\":
+                q = None
+            continue
+        if ch == "'":
+            q = ch
+        elif ch in "([{":
+            d += 1
+        elif ch in ")]}":
+            d -= 1
+        if ch == "|" and d == 0:
+            alts.append(cur)
+            cur = ""
+        else:
+            cur += ch
+    alts.append(cur)
+    if len(alts) < 2:
+        return None
+    return [(t[:i] + a + t[e + 1:], a) for a in alts]
 
 
 # ---------------------------------------------------------------------------
